@@ -226,6 +226,13 @@ fn proof_mutants(w: &Worlds, home: &InFlight) -> Vec<Mutant> {
                 sel.sort_unstable();
                 out.push(Mutant { label: format!("reselect:add-one(valid-proof)#{:?} from {:?}", sel, nums), data: build(&sel) });
             }
+            // whole tails / heads dropped: only the first k / only the last k headers
+            for k in 1..nums.len() {
+                let sel = nums[..k].to_vec();
+                out.push(Mutant { label: format!("reselect:prefix-only(valid-proof)#{:?} from {:?}", sel, nums), data: build(&sel) });
+                let sel = nums[k..].to_vec();
+                out.push(Mutant { label: format!("reselect:suffix-only(valid-proof)#{:?} from {:?}", sel, nums), data: build(&sel) });
+            }
             // every section shifted down by one block
             if nums[0] > 0 {
                 let sel: Vec<u64> = nums.iter().map(|n| n - 1).collect();
@@ -346,6 +353,12 @@ fn reselections(nums: &[u64], lo: u64, last: u64) -> Vec<(&'static str, Vec<u64>
         sel.push(x);
         sel.sort_unstable();
         out.push(("add-one", sel));
+    }
+    // whole tails / heads dropped (a section or several complete sections are missing, e.g. only
+    // the reorg headers, or everything but the last-N headers)
+    for k in 1..nums.len() {
+        out.push(("prefix-only", nums[..k].to_vec()));
+        out.push(("suffix-only", nums[k..].to_vec()));
     }
     out
 }
